@@ -358,7 +358,13 @@ pub fn judge_pair(a: &Case, b: &Case, k: usize) -> Verdict {
     for c in [a, b] {
         let Some(v) = value_of(&c.digits) else { return Verdict::Skip("not a number") };
         if v > c.carrier.field_max() || v.checked_mul(c.carrier.unit()).map(|p| p > u64::MAX as u128).unwrap_or(true) {
-            return Verdict::Skip("out of range (single-primary part)");
+            // one of the two is beyond the range of its field: the input is rejected as a whole,
+            // whatever the primary next to it carries (the same digits may be fine for that one)
+            return match catch(|| parse(&text).map_err(|e| e.to_string()).and_then(|(o, t)| compile(&t, &o).map(|c| c.scheme("/")).map_err(|e| e.to_string()))) {
+                Err(p) => Verdict::Fail(format!("{text:?}: panic (a panic is not a rejection): {p}")),
+                Ok(Err(_)) => Verdict::Pass { nt: true, class: "two numeric primaries, one beyond its range: rejected" },
+                Ok(Ok(prog)) => Verdict::Fail(format!("{text:?}: the value {v} is beyond the range of {:?}, yet the input was accepted; program:\n{prog}", c.carrier)),
+            };
         }
         let op = match c.sign {
             '+' => ">",
@@ -616,6 +622,32 @@ pub fn run(ctx: &Ctx) -> Report {
         }
         st
     });
+    // two numeric primaries of different attributes carrying the very same digits, one with a
+    // 64-bit field and one with a 32-bit field, in both orders (a conversion remembered from the
+    // first must not serve the second)
+    let mut stx = Stats::new();
+    let wide = [Carrier::Links, Carrier::Size(Some(SUnit::C)), Carrier::Time(Which::M, true, None), Carrier::Time(Which::A, false, Some(TUnit::S))];
+    let narrow = [Carrier::Uid, Carrier::Gid, Carrier::Inum, Carrier::MirrorCount, Carrier::StripeCount];
+    for w in wide {
+        for n in narrow {
+            for d in ["0", "5", "2147483647", "2147483648", "4294967295", "4294967296", "4294967297", "9223372036854775808", "18446744073709551615", "18446744073709551616", "04294967296", "4294967295000"] {
+                for k in 0..JOINERS.len() {
+                    for (a, b) in [(w, n), (n, w)] {
+                        let (ca, cb) = (Case { carrier: a, sign: ' ', digits: d.to_string() }, Case { carrier: b, sign: if k % 2 == 0 { ' ' } else { '+' }, digits: d.to_string() });
+                        let v = judge_pair(&ca, &cb, k);
+                        stx.record(&v, stable_hash(&(&ca, &cb, k)), true, || {
+                            let mut j = case_json(&ca);
+                            j["second"] = case_json(&cb);
+                            j["joiner"] = json!(k);
+                            j
+                        });
+                    }
+                }
+            }
+        }
+    }
+    stx.samples.truncate(1);
+    total.merge(stx);
     total.merge(pairs);
     total.exhaustive_parts.push(format!("pairs of numeric primaries of one attribute (-size x 8 unit spellings squared, each time attribute x 10 spellings squared, six id/count tests) x values {{0,1,2,1024,2048}}^2 x signs^2 x 7 ways of joining them: {}", if denom == 1 { "all" } else { "seed-selected 1/8 slice of the multi-spelling families" }));
 
